@@ -62,6 +62,7 @@ def replay_obligation(src, reg, contract, ob, result):
     custom = getattr(contract, "replayer", None)
     if custom is not None:
         info.update(custom(contract, ob, model_py))
+        info.setdefault("reproduced", False)
         return info
     if ob.kind == "side":
         info["note"] = "side obligation (loop invariant / call-site precondition): no direct concrete replay"
